@@ -6,6 +6,7 @@ import (
 	"encoding/json"
 	"flag"
 	"fmt"
+	"math"
 	"math/rand"
 	"os"
 	"sort"
@@ -44,6 +45,57 @@ type ignObs struct {
 	BA  diffObs `json:"ba"`
 }
 
+// reflObs: Diff, Compare and Match of a tree against an equal, separately built tree
+type reflObs struct {
+	D   []any `json:"d"`
+	C   []any `json:"c"`
+	M   bool  `json:"m"`
+	Pan bool  `json:"pan"`
+}
+
+func reflexive(x1, x2 any) reflObs {
+	o := observe(x1, x2, nil)
+	m, p := match(x1, x2)
+	return reflObs{D: o.D, C: o.C, M: m, Pan: o.Pan || p}
+}
+
+// project: absval with one more fact for unsigned leaves above MaxInt64 ("wrap": the decimal record of the int64
+// with the same bit pattern), which the specification needs for its one open cell.
+func project(v any) any {
+	switch t := v.(type) {
+	case uint64:
+		return wrapFact(t, absval.Atoms(v))
+	case uint:
+		return wrapFact(uint64(t), absval.Atoms(v))
+	case []any:
+		a := make([]any, len(t))
+		for i, e := range t {
+			a[i] = project(e)
+		}
+		return map[string]any{"t": "arr", "v": a}
+	case map[string]any:
+		keys := make([]string, 0, len(t))
+		for k := range t {
+			keys = append(keys, k)
+		}
+		sort.Strings(keys)
+		ks, vs := make([]any, len(keys)), make([]any, len(keys))
+		for i, k := range keys {
+			ks[i], vs[i] = k, project(t[k])
+		}
+		return map[string]any{"t": "obj", "k": ks, "v": vs}
+	}
+	return absval.Atoms(v)
+}
+
+func wrapFact(u uint64, p any) any {
+	if u > math.MaxInt64 {
+		m := p.(map[string]any)
+		m["wrap"] = absval.Dec(strconv.FormatInt(int64(u), 10))
+	}
+	return p
+}
+
 type diffLine struct {
 	F    string   `json:"f"`
 	Salt int64    `json:"salt"`
@@ -52,6 +104,8 @@ type diffLine struct {
 	MAB  bool     `json:"mab"`
 	MBA  bool     `json:"mba"`
 	MPan bool     `json:"mpan"`
+	RA   reflObs  `json:"ra"`
+	RB   reflObs  `json:"rb"`
 	O    []ignObs `json:"o"`
 }
 
@@ -185,7 +239,9 @@ func diffExec(args []string) {
 					return toSimple(c.A, r), toSimple(c.B, r)
 				}
 				x, y := build()
-				tl := diffLine{F: form, Salt: c.Salt, A: absval.Atoms(x), B: absval.Atoms(y), O: []ignObs{}}
+				tl := diffLine{F: form, Salt: c.Salt, A: project(x), B: project(y), O: []ignObs{}}
+				x2, y2 := build()
+				tl.RA, tl.RB = reflexive(x, x2), reflexive(y, y2)
 				var p1, p2 bool
 				tl.MAB, p1 = match(x, y)
 				tl.MBA, p2 = match(y, x)
@@ -234,7 +290,7 @@ type rgen struct {
 var rkeys = []string{"a", "b", "c", "k1", "", "x y", "0"}
 
 func (g *rgen) leaf() abs {
-	switch g.r.Intn(10) {
+	switch g.r.Intn(11) {
 	case 0:
 		return aNull()
 	case 1:
@@ -255,12 +311,18 @@ func (g *rgen) leaf() abs {
 	case 8:
 		// near neighbours beyond 2^53 and at the ends of int64 (base + off, see bigBases): float64 cannot tell them apart
 		return g.bigInt()
+	case 9:
+		// the boundaries of the narrow Go integer kinds and float specials
+		if g.r.Intn(3) == 0 {
+			return abs{"t": "flt", "s": []string{"3.4028234663852886e+38", "5e-324", "1.7976931348623157e+308", "+Inf", "-Inf", "1.401298464324817e-45"}[g.r.Intn(6)]}
+		}
+		return aInt([]int64{127, -128, 128, 255, 32767, -32768, 32768, 65535, 1 << 24, -1}[g.r.Intn(10)])
 	default:
 		return aInt(1)
 	}
 }
 
-var bigNames = []string{"p53", "n53", "p62", "max", "min"}
+var bigNames = []string{"p31", "n31", "p32", "p53", "n53", "p62", "max", "min", "u63", "umax"}
 
 func (g *rgen) bigInt() abs {
 	return abs{"t": "int", "big": bigNames[g.r.Intn(len(bigNames))], "off": g.r.Intn(4)}
